@@ -127,7 +127,9 @@ def resilience_case(seed):
     elev = {n: (wn.get_node(n).elevation if wn.get_node(n).node_type != "Reservoir" else 0.0) for n in nodes}
     head = pd.DataFrame({n: [elev[n] + rnd.randint(40, 160) * 0.25 for _ in times] for n in nodes}, index=times)
     pressure = pd.DataFrame({n: [head.loc[t, n] - elev[n] for t in times] for n in nodes}, index=times)
-    demand = pd.DataFrame({n: [(-1 if n.startswith("R") else 1) * rnd.randint(1, 40) * 0.0005 for _ in times] for n in nodes}, index=times)
+    # reservoirs mostly supply (negative demand) but one may also receive water at some times
+    demand = pd.DataFrame({n: [(rnd.choice([-1, -1, -1, 1]) if n.startswith("R") else 1) * rnd.randint(1, 40) * 0.0005 for _ in times]
+                           for n in nodes}, index=times)
     expected = pd.DataFrame({n: [rnd.randint(1, 40) * 0.0005 for _ in times] for n in wn.junction_name_list}, index=times)
     flow = pd.DataFrame({l: [rnd.randint(-20, 60) * 0.0005 for _ in times] for l in wn.link_name_list}, index=times)
     J = list(wn.junction_name_list)
